@@ -57,7 +57,7 @@ def crash_site(err):
             g = f
             for _ in range(6):
                 g = re.sub(r"<[^<>]*>", "", g)
-            m = re.search(r"([A-Za-z_~]\w*)\s*\(", g)
+            m = re.search(r"([A-Za-z_~]\w*)\s*\(", g) or re.match(r"\s*(?:[A-Za-z_]\w*::)*([A-Za-z_~]\w*)", g)
             fn = m.group(1) if m else "?"
             fl = re.search(r"/(?:src|include/manifold)/([\w.]+):", f)
             return "%s@%s" % (fn, fl.group(1) if fl else "?")
@@ -132,6 +132,20 @@ def check_program(cx, cid, tag, line, status0, ntri0, steps, stats):
         elif s1 != 0 and n1 != 0:
             cx.violation("error-not-empty", "%s returned status %d with %d triangles" % (op, s1, n1), {"case": line})
         st, nt = s1, n1
+
+
+def obj_buffer_sizes():
+    """every fixed buffer size in the OBJ reader (src/impl.cpp ReadOBJWithEpsilon), read from the source"""
+    try:
+        src = open(os.path.join(vp.REPO, "src/impl.cpp")).read()
+        a = src.index("ReadOBJWithEpsilon(")
+        body = src[a:a + 6000]
+        vals = set(int(x) for x in re.findall(r"constexpr\s+size_t\s+\w+\s*=\s*(\d+)\s*;", body))
+        vals |= set(int(x) for x in re.findall(r"std::array<\s*char\s*,\s*(\d+)\s*>", body))
+        vals |= set(int(x) for x in re.findall(r"char\s+\w+\[(\d+)\]", body))
+        return sorted(v for v in vals if 8 <= v <= 1 << 20) or [1000]
+    except Exception:
+        return [1000]
 
 
 def explore_lines(cx, n):
@@ -220,8 +234,26 @@ def explore_lines(cx, n):
             "v 0 0 0\nv 1 0 0\nv 0 1 0\nf 1 2 999999999\n", "v nan 0 0\nv 1 0 0\nv 0 1 0\nv 0 0 1\nf 1 3 2\nf 1 2 4\nf 2 3 4\nf 3 1 4\n",
             "v 0 0\nf 0 0 0\nf -1 -2 -3\n", "f 1/1/1 2/2/2 3/3/3\n", "v 1e999 0 0\nv a b c\nf x y z\n", "# only a comment", "v 0 0 0\nv 1 0 0\nv 0 1 0\nv 0 0 1\nf 1 3 2 4\nf 4294967297 2 4\n",
             "v 0x1p+0 0 0\nv 0 0x1p+0 0\nv 0 0 0x1p+0\nv 0 0 0\nf 1 2 3\nf 1 4 2\nf 2 4 3\nf 3 4 1\n", "f 18446744073709551616 1 1\n", "v " + "9" * 400 + " 0 0\n"]
+    # line lengths around every buffer size constant of the OBJ reader (read from the source), as comment / v / f /
+    # unknown lines, with and without the trailing newline, alone and inside a valid tetrahedron; plus long lines, CR/LF,
+    # embedded NULs, many tokens per f line, hex-float mode lines
+    tetra = objs[3]
+    for B in obj_buffer_sizes():
+        for ln in (B - 2, B - 1, B, B + 1, B + 2):
+            for kind in ("#", "v 1 2 3", "f 1 2 3", "zz", "v 0x1.8p+1 2 3", "# tolerance = 1e-5"):
+                body = kind + (" " * max(0, ln - len(kind)) if kind[0] in "vf#" and kind != "#" else "x" * max(0, ln - len(kind)))
+                body = body[:ln]
+                for nl in ("\n", "", "\r\n"):
+                    objs.append(body + nl)
+                objs.append(tetra + body + "\n" + "v 9 9 9\n")
+                objs.append(tetra + body)
+    objs += ["#" + "y" * 5000 + "\n" + tetra, "v " + "1 " * 3000 + "\n", "f " + "1 " * 3000 + "\n", "f " + "1/2/3 " * 2000 + "\n",
+             tetra.replace("\n", "\r\n"), tetra.replace("\n", "\r"), "v 0 0\x000 0\nf 1\x00 2 3\n", "\x00" * 50, tetra + "\x00\x00v 1 1 1\n",
+             "#" + "z" * 100000, "v " + "9" * 400 + " " + "9" * 400 + " -" + "9" * 400 + "e-400\n", "v 1e+400 1e-400 -1e+400\n",
+             "# float_format = hexfloat\n# tolerance = 0x1.0p-40\nv 0x1p+0 0x0p+0 0x0p+0\nv 0x0p+0 0x1p+0 0x0p+0\nv 0x0p+0 0x0p+0 0x1p+0\nv -0x1p+0 -0x1p+0 -0x1p+0\nf 1 2 3\nf 1 4 2\nf 2 4 3\nf 3 4 1\n",
+             "f 1 2\nf 1\nf\nv\nv 1\nv 1 2\n", "f 3 2 1 " + "7 " * 500 + "\n"]
     for o in objs:
-        out.append(("B%d" % cid, "B B%d %s" % (cid, o.encode().hex() or "00"))); cid += 1
+        out.append(("B%d" % cid, "B B%d %s" % (cid, o.encode("latin-1").hex() or "00"))); cid += 1
     for _ in range(n // 2):
         base = bytearray(rng.choice(objs[3:6]).encode())
         for _ in range(rng.randrange(1, 4)):
@@ -488,8 +520,13 @@ def run(cx):
         cl, rc1, err1 = lst[0]
         frames = [f.strip() for f in re.findall(r"(/repo/[^\n]*runtime error[^\n]*|#\d+ 0x[0-9a-f]+ in [^\n]*/src/[^\n]*)", err1)][:2]
         argl = [" ".join(c.split()[2:7]) for c, _, _ in lst[:8]]
-        cx.violation(key, "%d argument tuple(s) made the implementation die or hang: %s (first: rc=%s %s %s)" % (len(lst), "; ".join(argl)[:400], rc1, san_summary(err1), "; ".join(frames)[:200]),
-                     {"case": cl, "all_cases": [c for c, _, _ in lst][:20]})
+        rp = {"case": cl, "all_cases": [c for c, _, _ in lst][:20]}
+        if cl.startswith("B "):
+            txt = bytes.fromhex(cl.split()[2]).decode("latin-1")
+            rp["obj_text_repr"] = repr(txt) if len(txt) < 3000 else repr(txt[:1500]) + " ... " + repr(txt[-1200:])
+            rp["obj_line_lengths"] = [len(x) for x in re.split(r"[\r\n]", txt)][:40]
+            argl = ["OBJ text with line lengths %s" % rp["obj_line_lengths"][:12]]
+        cx.violation(key, "%d argument tuple(s) made the implementation die or hang: %s (first: rc=%s %s %s)" % (len(lst), "; ".join(argl)[:400], rc1, san_summary(err1), "; ".join(frames)[:200]), rp)
     nexp = 0
     for l in eo.splitlines():
         if l.startswith("O "):
